@@ -743,7 +743,13 @@ func ruleEval(c *Ctx, mode string) *RuleResult {
 						if hc.data.prov == "" && hc.data.atoms == ANull {
 							continue // a null standing for a nil element of Go data
 						}
-						if string(hc.data.prov) != pj.elemOf {
+						// a zero slot of a pre-sized slice filled by index (make([]T, n);
+						// s[i] = v): that every slot is overwritten is index arithmetic, not decided
+						dp := strings.TrimSuffix(strings.TrimPrefix(string(hc.data.prov), "zero+"), "+zero")
+						if dp == "zero" {
+							continue
+						}
+						if dp != pj.elemOf {
 							problems = append(problems, fmt.Sprintf("%s is evaluated against %s; must be %s (each element of the left result, nothing else)", strings.TrimPrefix(hc.node, "node "), hc.data.prov, pj.elemOf))
 						}
 						if hc.node == "node "+pj.rhs {
